@@ -994,13 +994,13 @@ func families(tier string) []fw.Family {
 		Desc:  func(i int64) string { return progB(i).String() }})
 	// C: depth 3: every style triple x view of the middle and last draw
 	geo := [][3]int{{0, 2, 4}}
-	radC := []int{nS, nS, nS, nV, 2, len(geo)}
+	radC := []int{nS, nS, nS, nV, nV, len(geo)}
 	progC := func(i int64) program {
 		g := oracle.Digits(i, radC...)
 		ge := geo[g[5]]
 		return program{{path: ge[0], style: g[0], view: 0, cs: 0}, {path: ge[1], style: g[1], view: g[3], cs: 0}, {path: ge[2], style: g[2], view: g[4], cs: 1}}
 	}
-	fs = append(fs, fw.Family{Name: "C depth 3: style^3 x view of draw 2 x {identity, similarity} of draw 3", N: oracle.Prod(radC...),
+	fs = append(fs, fw.Family{Name: "C depth 3: style^3 x view of draw 2 x view of draw 3", N: oracle.Prod(radC...),
 		Check: func(i int64, r *fw.R) { checkProgram(r, progC(i), main3, i%5 == 0) },
 		Desc:  func(i int64) string { return progC(i).String() }})
 	return fs
@@ -1016,7 +1016,7 @@ func Prop() *fw.Property {
 			"it must equal, operation by operation (count, order, region on the samples farther than 0.15 mm from the expected boundary, paint within 3/255) and after source-over compositing on 3840 sample points, the display list derived from the canvas's recorded layers by the rasterizer's semantics (fill = m·path under the fill rule; stroke = m·Stroke(Dash(path, dashes x width))). " +
 			"states = programs, transitions = draw calls, validated = (program, back-end) pairs compared; non-trivial = some expected region has decidable samples inside",
 		Assumptions: []string{
-			"menus: 26 styles (each one field away from a base style), 5 paths, 4 views, 2 coordinate systems, positions fixed per draw index; depth <= 2 (quick: styles^2 x views^2 x 5 path pairings) / full depth-2 product (1 081 600 programs) and styles^3 x 4 views x 2 views at depth 3 (thorough)",
+			"menus: 26 styles (each one field away from a base style), 5 paths, 4 views, 2 coordinate systems, positions fixed per draw index; depth <= 2 (quick: styles^2 x views^2 x 5 path pairings) / full depth-2 product (1 081 600 programs) and styles^3 x views^2 at depth 3 (thorough)",
 			"natively emitted strokes are materialised from the PARSED parameters with canvas's own Dash/Stroke in user space and mapped through the parsed CTM (C04/C05 judge Dash/Stroke themselves); where a dashed closed subpath returns to its start with the pattern on at both ends, both readings (two caps / one dash running through with a join) are accepted",
 			"PostScript: geometry is compared relative to the %%BoundingBox (the absolute unit is checked once in family U); paints with alpha<1 and gradients are not compared for PS (alpha is documented as unsupported)",
 			"the rasterizer's pixels are compared with the expected list at the same points and tallied only (C14 owns the rasterizer)",
